@@ -272,3 +272,14 @@ def tests_before(path: Path, index: int, pred: Callable[[Event], bool],
         if event.kind in ('test', 'assert') and pred(event):
             return event
     return None
+
+
+def atomic_block(path: Path, index: int) -> List[Event]:
+    """the events around ``index`` between the enclosing suspension points"""
+    start = index
+    while start > 0 and not is_suspension(path.events[start - 1]):
+        start -= 1
+    stop = index
+    while stop < len(path.events) - 1 and not is_suspension(path.events[stop + 1]):
+        stop += 1
+    return path.events[start:stop + 1]
